@@ -46,13 +46,13 @@ def WellFormed (v : Val) : Prop := Typing.checkVal false v (typeOf v) = true ∧
 body (its MAP bodies keep the element type) -/
 def StrictWF (v : Val) : Prop := Typing.checkVal true v (typeOf v) = true ∧ Typing.litOk v = true
 
-/-- **shape digests**: for each of the 101 instruction forms, the helpers (`execute_dip`, `execute_shift`, `dispatch_types`
+/-- **shape digests**: for each of the 102 instruction forms, the helpers (`execute_dip`, `execute_shift`, `dispatch_types`
 …) and the `MichelsonStack` / `PairType` / `from_value` methods they call, the normalised statement list in the source
 is the one the mirror `Impl` was written from (translator/c01.py, `SHAPES`) -/
 theorem source_bodies_recognised : Generated.C01.bodyRecognised.all (·.2) = true := by decide
 
-/-- the digest list covers all 101 instruction forms -/
-theorem source_bodies_cover_all_forms : Generated.C01.modelledForms = 101 ∧ 101 ≤ Generated.C01.bodyRecognised.length := by
+/-- the digest list covers all 102 instruction forms -/
+theorem source_bodies_cover_all_forms : Generated.C01.modelledForms = 102 ∧ 102 ≤ Generated.C01.bodyRecognised.length := by
   decide +kernel
 
 /-- the `dispatch_types` tables read from arithmetic.py are the reference tables -/
@@ -223,7 +223,7 @@ end
 the PUSHed lambda literals, in LAMBDA bodies — leaves an element of the type it was given.  For such programs, run on
 strictly well-typed values (`StrictWF`: the lambdas on the input stack have strictly typed bodies too), the guard of
 `welltyped_run_eq_reference` never fires, so C01's statement holds with static hypotheses only.  The invariant "every
-lambda on the stack has a strictly typed body" is carried through all 101 instruction forms by the same preservation /
+lambda on the stack has a strictly typed body" is carried through all 102 instruction forms by the same preservation /
 progress development as the non-strict one, instantiated at the mode `Mode.strictGuarded`. -/
 
 /-- strict typing refines typing: same result -/
@@ -307,7 +307,7 @@ theorem map_empty_counterexample :
       = .ok [.list .timestamp []] ∧
     Spec.eval true env0 5 (.seq [.NIL .timestamp, .MAP (.seq [.DROP, .PUSH .int (.num .int 0)])]) [] = .offguard := by
   refine ⟨?_, ?_, ?_⟩ <;>
-    simp [Spec.eval, Spec.evalSeq, Spec.evalMap, Spec.step, Spec.listOf, Spec.mapOutTy, Typing.typeInstr, Typing.typeSeq,
+    simp [Spec.eval, Spec.evalSeq, Spec.evalMap, Spec.step, Spec.listOf, Spec.mapOutTy, Typing.typeInstr, Typing.typeSeq, Typing.pushable,
       Typing.step, Typing.checkVal, Impl.run, Impl.exec, Impl.execSeq, Impl.step, Impl.mapLoop, Stack.push, Stack.pop1,
       Stack.pop, Res.bind, typeOf]
 
@@ -488,6 +488,31 @@ example (h : Hashes) (k s m : List Nat) :
       Spec.checkSignatureV, Res.bind, hc])
 example : Typing.typeInstr false (.seq [.CHECK_SIGNATURE, .NOT]) [.key, .signature, .bytes] = some (.ok [.bool]) := by rfl
 example : Typing.typeInstr false .CHECK_SIGNATURE [.signature, .key, .bytes] = none := by rfl
+
+-- extension 3, phase 2: a big map created in the run — insertions in any order give the sorted bindings, GET / MEM / GET_AND_UPDATE
+-- answer like on a map, a removed key is gone, and the machine computes the same
+def progB : Instr :=
+  .seq [.EMPTY_BIG_MAP .string .nat,
+        .PUSH (.option .nat) (.some (.num .nat 2)), .PUSH .string (.str [98]), .UPDATE,
+        .PUSH (.option .nat) (.some (.num .nat 1)), .PUSH .string (.str [97]), .UPDATE,
+        .PUSH (.option .nat) (.none .nat), .PUSH .string (.str [98]), .GET_AND_UPDATE,
+        .SWAP, .DUP, .PUSH .string (.str [98]), .MEM, .SWAP, .DUP, .PUSH .string (.str [97]), .GET]
+example : Spec.eval true env0 30 progB []
+    = .ok [.some (.num .nat 1), .bigMap .string .nat [.pair (.str [97]) (.num .nat 1)], .bool false, .some (.num .nat 2)] := by rfl
+example : Impl.run env0 30 progB []
+    = .ok [.some (.num .nat 1), .bigMap .string .nat [.pair (.str [97]) (.num .nat 1)], .bool false, .some (.num .nat 2)] :=
+  run_ok env0 30 _ [] _ (by rfl)
+example : Typing.typeInstr false progB [] = some (.ok [.option .nat, .bigMap .string .nat, .bool, .option .nat]) := by rfl
+-- a big map is not pushable, not packable, not comparable, cannot hold a big map or an operation, and has no SIZE / ITER;
+-- APPLY cannot capture one (the captured value becomes a PUSH)
+example : Typing.typeInstr false (.PUSH (.bigMap .int .int) (.bigMap .int .int [])) [] = none := by rfl
+example : Typing.typeInstr false .PACK [.bigMap .int .int] = none := by rfl
+example : Typing.typeInstr false .COMPARE [.bigMap .int .int, .bigMap .int .int] = none := by rfl
+example : Typing.typeInstr false (.EMPTY_BIG_MAP .int (.bigMap .int .int)) [] = none := by rfl
+example : Typing.typeInstr false (.EMPTY_BIG_MAP .int .operation) [] = none := by rfl
+example : Typing.typeInstr false .SIZE [.bigMap .int .int] = none := by rfl
+example : Typing.typeInstr false .APPLY [.bigMap .int .int, .lambda (.pair (.bigMap .int .int) .unit) .unit] = none := by rfl
+example : Typing.typeInstr false (.seq [.DUP, .PAIR]) [.bigMap .int .int] = some (.ok [.pair (.bigMap .int .int) (.bigMap .int .int)]) := by rfl
 
 -- non-vacuity of `welltyped_run_eq_reference` / `progress`: a well-typed program with a loop, a lambda call and a sorted
 -- set literal, run on a well-typed input stack; the hypotheses hold and the run is inside the guard
